@@ -610,7 +610,7 @@ func c10EnumNumbering(ctx *core.Ctx) {
 		}
 		found++
 		fname := QName(fn)
-		cfg := &bounds.Config{IntBits: 64, AssumeLenI32: true, Ideal: true}
+		cfg := &bounds.Config{IntBits: IntBits(), AssumeLenI32: true, Ideal: true}
 		ctx.Assume("enum numbering is decided over the mathematical integers (explicit enum values below 2^63-1)")
 		pr := bounds.New(cfg)
 		hdr := counter.Block()
